@@ -1,6 +1,7 @@
 package props
 
 import (
+	"sort"
 	"fmt"
 	"regexp"
 	"strings"
@@ -620,11 +621,39 @@ func C02(c *core.Ctx) {
 		for _, td := range g.lib {
 			libT.WriteString(td.yang("  "))
 		}
+		// an identity hierarchy: identities of the imported module, and identities of the main module with one to
+		// three bases each, local and imported ones in any order ("the identities an identityref accepts")
+		idBases := map[string][]string{"la": nil, "lb": nil, "lc": {"la"}, "ld": {"lb", "lc"}, "idbase": nil, "idmid": {"idbase"}, "idlow": {"idmid"}}
+		idOrder := []string{"la", "lb", "lc", "ld", "idbase", "idmid", "idlow"}
+		var idText strings.Builder
+		for i, n := 0, 2+rng.Intn(5); i < n; i++ {
+			name := fmt.Sprintf("x%d", i)
+			var bs []string
+			for j, nb := 0, 1+rng.Intn(3); j < nb; j++ {
+				b := core.Pick(rng, idOrder)
+				if !contains(bs, b) {
+					bs = append(bs, b)
+				}
+			}
+			idBases[name] = bs
+			idOrder = append(idOrder, name)
+			fmt.Fprintf(&idText, "  identity %s {", name)
+			for _, b := range bs {
+				if strings.HasPrefix(b, "l") {
+					b = "lib:" + b
+				} else if rng.Chance(30) {
+					b = "m:" + b
+				}
+				fmt.Fprintf(&idText, " base %s;", b)
+			}
+			idText.WriteString(" }\n")
+		}
 		mainY := "module m { yang-version 1.1; namespace \"urn:m\"; prefix m;\n  import lib { prefix lib; }\n  include m-sub;\n  revision 2020-01-01;\n" +
-			"  identity idbase; identity idmid { base idbase; } identity idlow { base idmid; }\n  leaf target { type uint16; }\n" +
+			"  identity idbase; identity idmid { base idbase; } identity idlow { base idmid; }\n" + idText.String() + "  leaf target { type uint16; }\n" +
 			modT.String() + body.String() + "}\n"
 		subY := "submodule m-sub { yang-version 1.1; belongs-to m { prefix m; }\n" + subT.String() + "}\n"
-		libY := "module lib { yang-version 1.1; namespace \"urn:lib\"; prefix lib;\n  revision 2020-01-01;\n" + libT.String() + "}\n"
+		libY := "module lib { yang-version 1.1; namespace \"urn:lib\"; prefix lib;\n  revision 2020-01-01;\n" +
+			"  identity la; identity lb; identity lc { base la; } identity ld { base lb; base lc; }\n" + libT.String() + "}\n"
 		input := map[string]interface{}{"m.yang": mainY, "m-sub.yang": subY, "lib.yang": libY}
 		var m *meta.Module
 		lerr := safeDo(func() error {
@@ -637,6 +666,67 @@ func C02(c *core.Ctx) {
 		if lerr != nil {
 			c.Violation(core.Replay{Kind: "property-failure", Class: "load-" + c06errClass(lerr.Error()), Summary: "valid module set does not load: " + short(lerr.Error()), Input: input})
 			continue
+		}
+		// every identity is derived (directly or not) from exactly the identities its base statements lead to
+		if ierr := safeDo(func() error {
+			all := map[string]*meta.Identity{}
+			for n, id := range m.Identities() {
+				all[n] = id
+			}
+			if im := m.Imports()["lib"]; im != nil && im.Module() != nil {
+				for n, id := range im.Module().Identities() {
+					all[n] = id
+				}
+			}
+			var below func(id *meta.Identity, out map[string]bool)
+			below = func(id *meta.Identity, out map[string]bool) {
+				for _, d := range id.DerivedDirect() {
+					if !out[d.Ident()] {
+						out[d.Ident()] = true
+						below(d, out)
+					}
+				}
+			}
+			var reaches func(n, base string, seen map[string]bool) bool
+			reaches = func(n, base string, seen map[string]bool) bool {
+				if seen[n] {
+					return false
+				}
+				seen[n] = true
+				for _, b := range idBases[n] {
+					if b == base || reaches(b, base, seen) {
+						return true
+					}
+				}
+				return false
+			}
+			for _, base := range idOrder {
+				id := all[base]
+				if id == nil {
+					c.Violation(core.Replay{Kind: "property-failure", Class: "identity-missing", Summary: "identity " + base + " is not in the compiled schema", Input: input})
+					continue
+				}
+				got := map[string]bool{}
+				below(id, got)
+				var gl, wl []string
+				for n := range got {
+					gl = append(gl, n)
+				}
+				for _, n := range idOrder {
+					if reaches(n, base, map[string]bool{}) {
+						wl = append(wl, n)
+					}
+				}
+				sort.Strings(gl)
+				sort.Strings(wl)
+				c.Evaluations++
+				if strings.Join(gl, " ") != strings.Join(wl, " ") {
+					c.Violation(core.Replay{Kind: "property-failure", Class: "identity-derived", Summary: fmt.Sprintf("identities derived from %s: compiled schema says %v, the base statements say %v", base, gl, wl), Input: input})
+				}
+			}
+			return nil
+		}); ierr != nil {
+			c.Violation(core.Replay{Kind: "property-failure", Class: "identity-panic", Summary: "walking the identities: " + ierr.Error(), Input: input})
 		}
 		// model query per leaf
 		modsTok := []string{"M", "1", core.Hex("lib"), fmt.Sprint(len(g.lib))}
